@@ -540,7 +540,8 @@ def run(ctx):
             volume_clause[pos] += 1
         if st != "ok":
             if clause.startswith("machinery:"):
-                raise tlc.MachineryError("Trace_Mesh could not judge a case: %s %s" % (clause, mode))
+                ctx.undecided("Trace_Mesh could not judge a case: %s %s" % (clause, mode))
+                continue
             ctx.violation(clause, sig_of(mode, spec, source, case, clause, pos),
                           {"mode": mode, "spec": spec, "source": source,
                            "observed": {k: case[k] for k in ("res", "saved", "rc", "exc", "newfiles", "info",
